@@ -85,6 +85,24 @@ def _pure_view(body, ci, name) -> bool:
     return _pure_stmts(body)
 
 
+def _unread_accessor(repo: Repo, g, name: str) -> bool:
+    from .ir import api_signature
+    if api_signature(g) is not None:
+        return False
+    key = ("attr_loads", name)
+    if key not in repo.memo:
+        n = 0
+        for mi in repo.modules.values():
+            for node in ast.walk(mi.tree):
+                if isinstance(node, ast.Attribute) and node.attr == name and isinstance(node.ctx, ast.Load):
+                    n += 1
+                if isinstance(node, ast.Call) and isinstance(node.func, ast.Name) and node.func.id in ("getattr", "hasattr") \
+                        and len(node.args) >= 2 and isinstance(node.args[1], ast.Constant) and node.args[1].value == name:
+                    n += 1
+        repo.memo[key] = n
+    return repo.memo[key] == 0
+
+
 def check_transparent_properties(rep, repo: Repo, pre: str = "") -> int:
     n = 0
     for mi in repo.modules.values():
@@ -100,6 +118,11 @@ def check_transparent_properties(rep, repo: Repo, pre: str = "") -> int:
                     # make a stored field differ from what was stored
                     ok = True
                     want = "a pure expression of other fields (read-only view)"
+                if not ok and name not in ci.setters and _unread_accessor(repo, g, name):
+                    # an accessor the documented API does not have and no library code reads: what it returns cannot
+                    # reach any of the algorithms
+                    ok = True
+                    want = "whatever it likes (new read-only accessor that no library code reads)"
                 rep.fn(pre + "PROP-getter", g, f"{ci.name}.{name} getter returns {want}", ok,
                        f"the getter returns '{unparse(body[0].value) if body and isinstance(body[0], ast.Return) and body[0].value is not None else '...'}': "
                        "reads of this field are not the stored value")
